@@ -24,8 +24,10 @@ conversion; a regular-expression match dereferenced without None test is an
 AttributeError fact. LOCK-PAIR - the process-wide pyparsing lock is taken with `with`, or every
 CFG path from an explicit acquire() to an exit of the function (exceptional
 exits and the yield of a generator-based context manager included) passes its
-release(). Not decided: other hangs (loops waiting for a line that never
-comes); equality of a surviving edition with the complete
+release(). READ-LOOP - every `while` loop of the reader modules that reads the file
+(readline / read) stops on an empty read (expected instances on the shipped
+code: 0, it iterates with `for line in fil`; a built-in canary is checked at
+every run). Not decided: other hangs; equality of a surviving edition with the complete
 listing; exceptions originating in library calls outside the primitive
 table; the ParseResult post-processing layer (its raise sites validate
 programmer-supplied types, not listing content).
@@ -40,6 +42,7 @@ ASSUMPTIONS = [
 def check(ctx):
     ctx.run(parsers.check_exc_esc)
     ctx.run(parsers.check_lock_pair)
+    ctx.run(parsers.check_read_loop)
 
 
 def variants(program):
